@@ -203,38 +203,39 @@ Hypothesis defined_pushok : forall n, defined n = true -> pushok n = true.
 Variable rootsH : list node.                 (* harvested from parameters, returns (both arms), channels, events *)
 Variable fieldsT : node -> list (list node). (* TypeStructure names, per field *)
 Variable rootsT : list node.                 (* TypeStructure names of parameters, returns, channels *)
-Variable eventsT : list (list node).         (* TypeStructure names of each event payload *)
+Variable eventInits : list (list node).      (* TypeStructure names of each event payload *)
 Variable perm : list node -> list node.      (* iteration order of the discovered map *)
 Hypothesis perm_ok : forall l, NoDup l -> NoDup (perm l) /\ forall x, In x (perm l) <-> In x l.
 (* specification side *)
 Variable succS : node -> list node.
 Variable rootsC rootsE : list node.          (* command roots, event payload roots *)
 
-Definition declared_abs (disc used : list node) : list node :=
-  add_events eq_dec disc eventsT (filter (fun n => memb n used) (perm disc)).
+Definition declared_abs (disc used : list node) (closures : list (list node)) : list node :=
+  add_events eq_dec disc closures (filter (fun n => memb n used) (perm disc)).
 
 (* agreement of the three readers on defined names *)
 Hypothesis agree_H : forall n y, defined n = true -> defined y = true -> (In y (succH n) <-> In y (succS n)).
 Hypothesis agree_T : forall n y, defined n = true -> defined y = true -> (In y (concat (fieldsT n)) <-> In y (succS n)).
 Hypothesis roots_T : forall y, defined y = true -> (In y rootsT <-> In y rootsC).
 Hypothesis roots_H : forall y, defined y = true -> In y rootsC \/ In y rootsE -> In y rootsH.
-Hypothesis events_T : forall y, defined y = true -> ((exists e, In e eventsT /\ In y e) <-> In y rootsE).
-(* complement of the class kf_event_nested *)
-Hypothesis no_event_only : forall x, target succS defined (rootsC ++ rootsE) x ->
-  target succS defined rootsC x \/ In x rootsE.
+Hypothesis events_T : forall y, defined y = true -> ((exists e, In e eventInits /\ In y e) <-> In y rootsE).
 
-Theorem pipeline_exact fuel1 fuel2 disc used :
+Theorem pipeline_exact fuel1 fuel2 disc used closures :
   work eq_dec succH defined pushok fuel1 rootsH [] = Some disc ->
   nested eq_dec fieldsT (fun n => memb n disc) fuel2 rootsT [] rootsT = Some used ->
-  NoDup (declared_abs disc used) /\
-  forall x, In x (declared_abs disc used) <-> target succS defined (rootsC ++ rootsE) x.
+  (* each closure is what discover_nested_dependencies computes from the payload names of one event *)
+  (forall x, memb x disc = true ->
+     ((exists cl, In cl closures /\ In x cl) <->
+      exists init, In init eventInits /\ target (fun n => concat (fieldsT n)) (fun n => memb n disc) init x)) ->
+  NoDup (declared_abs disc used closures) /\
+  forall x, In x (declared_abs disc used closures) <-> target succS defined (rootsC ++ rootsE) x.
 Proof.
-  intros Hw Hn.
+  intros Hw Hn Hcl.
   destruct (work_exact node eq_dec succH defined pushok defined_pushok rootsH fuel1 disc Hw) as [Hnd Hdisc].
   destruct (nested_exact fieldsT (fun n => memb n disc) rootsT fuel2 used Hn) as [Hinit Hused].
   destruct (perm_ok disc Hnd) as [Hpnd Hpin].
   assert (Hbase_nd : NoDup (filter (fun n => memb n used) (perm disc))) by (apply NoDup_filter; auto).
-  destruct (add_events_spec disc eventsT _ Hbase_nd) as [Hdnd Hdin].
+  destruct (add_events_spec disc closures _ Hbase_nd) as [Hdnd Hdin].
   split; [exact Hdnd|].
   assert (Hdisc_def : forall x, In x disc -> defined x = true) by (intros x Hx; apply Hdisc in Hx; apply Hx).
   (* a defined name reachable (specification) from a discovered name is discovered *)
@@ -242,43 +243,54 @@ Proof.
   { intros a b Ha Hb Hdb. apply Hdisc. apply Hdisc in Ha as (Hda & r & Hr & Hreach). split; auto.
     exists r. split; auto. eapply WorklistSpike.reach_trans; [exact Hreach|].
     apply (C07Worklist.reach_step succH defined a b b Hda); [apply agree_H; auto|constructor]. }
+  (* from the TypeStructure walk inside the discovered names to the specification *)
+  assert (Hdown : forall r x, In x disc -> reach (fun n => concat (fieldsT n)) (fun n => memb n disc) r x ->
+                  defined r = true /\ reach succS defined r x).
+  { intros r x Hxd Hreach. assert (Hrd : defined r = true).
+    { inversion Hreach; subst; auto. apply Hdisc_def. apply memb_true. auto. }
+    split; auto.
+    apply (reach_transfer (fun n => concat (fieldsT n)) succS (fun n => memb n disc) defined
+             (fun n => defined n = true) (fun _ => True)); auto.
+    - intros n Hn'. apply Hdisc_def. apply memb_true; auto.
+    - intros a _ Ha. apply Hdisc_def. apply memb_true; auto.
+    - intros a b _ Ha Hb Hab. split; auto. apply agree_T; auto. apply Hdisc_def. apply memb_true; auto. }
+  (* and back, from a defined root that is among the harvested roots *)
+  assert (Hup : forall r x, defined x = true -> In r rootsC \/ In r rootsE -> reach succS defined r x ->
+                In x disc /\ reach (fun n => concat (fieldsT n)) (fun n => memb n disc) r x).
+  { intros r x Hdx Hr Hreach.
+    assert (Hrd : defined r = true) by (eapply reach_start_defined; eauto).
+    assert (Hrdisc : In r disc).
+    { apply Hdisc. split; auto. exists r. split; [apply roots_H; auto|constructor]. }
+    assert (HreachH : reach succH defined r x).
+    { apply (reach_transfer succS succH defined defined (fun n => defined n = true) (fun _ => True)); auto.
+      intros a b _ Ha Hb Hab. split; auto. apply agree_H; auto. }
+    split.
+    - apply Hdisc. split; auto. exists r. split; [apply roots_H; auto|exact HreachH].
+    - apply (reach_transfer succS (fun n => concat (fieldsT n)) defined (fun n => memb n disc)
+               (fun n => defined n = true) (fun n => In n disc)); auto.
+      + intros a Ha _. apply memb_true; auto.
+      + intros a b Ha Hda Hdb Hab. split; [apply agree_T; auto|]. eapply Hstep; eauto. }
   intros x. unfold declared_abs. rewrite Hdin. rewrite filter_In, Hpin. split.
-  - intros [[Hxd Hxu]|[Hxd (e & He & Hxe)]].
+  - intros [[Hxd Hxu]|[Hxd Hex]].
     + (* discovered and used *)
       apply memb_true in Hxu. assert (Hdx := Hdisc_def x Hxd).
       apply Hused in Hxu; [|apply memb_true; auto]. destruct Hxu as (_ & r & Hr & Hreach).
-      split; auto. exists r.
-      assert (Hrd : defined r = true).
-      { inversion Hreach; subst; auto. apply Hdisc_def. apply memb_true. auto. }
-      split. { apply in_or_app; left. apply roots_T; auto. }
-      apply (reach_transfer (fun n => concat (fieldsT n)) succS (fun n => memb n disc) defined
-               (fun n => defined n = true) (fun _ => True)); auto.
-      * intros n Hn'. apply Hdisc_def. apply memb_true; auto.
-      * intros a _ Ha. apply Hdisc_def. apply memb_true; auto.
-      * intros a b _ Ha Hb Hab. split; auto. apply agree_T; auto. apply Hdisc_def. apply memb_true; auto.
-    + (* discovered event payload name *)
-      assert (Hdx := Hdisc_def x Hxd). split; auto. exists x. split; [|constructor].
-      apply in_or_app; right. apply events_T; auto. exists e; auto.
-  - intros Ht. assert (Hdx : defined x = true) by apply Ht.
-    destruct (no_event_only x Ht) as [(_ & r & Hr & Hreach)|Hxe].
-    + left.
-      assert (Hrd : defined r = true) by (eapply reach_start_defined; eauto).
-      assert (Hrdisc : In r disc).
-      { apply Hdisc. split; auto. exists r. split; [apply roots_H; auto|constructor]. }
-      assert (HreachH : reach succH defined r x).
-      { apply (reach_transfer succS succH defined defined (fun n => defined n = true) (fun _ => True)); auto.
-        intros a b _ Ha Hb Hab. split; auto. apply agree_H; auto. }
-      assert (Hxdisc : In x disc).
-      { apply Hdisc. split; auto. exists r. split; [apply roots_H; auto|exact HreachH]. }
-      split; auto. apply memb_true. apply Hused; [apply memb_true; auto|]. split; [apply memb_true; auto|].
-      exists r. split; [apply roots_T; auto|].
-      apply (reach_transfer succS (fun n => concat (fieldsT n)) defined (fun n => memb n disc)
-               (fun n => defined n = true) (fun n => In n disc)); auto.
-      * intros a Ha _. apply memb_true; auto.
-      * intros a b Ha Hda Hdb Hab. split; [apply agree_T; auto|]. eapply Hstep; eauto.
-    + right. split.
-      * apply Hdisc. split; auto. exists x. split; [apply roots_H; auto|constructor].
-      * apply events_T; auto.
+      destruct (Hdown r x Hxd Hreach) as [Hrd HreachS].
+      split; auto. exists r. split; auto. apply in_or_app; left. apply roots_T; auto.
+    + (* discovered and in the closure of an event payload *)
+      assert (Hdx := Hdisc_def x Hxd).
+      apply (Hcl x) in Hex; [|apply memb_true; auto]. destruct Hex as (init & Hinit' & _ & r & Hr & Hreach).
+      destruct (Hdown r x Hxd Hreach) as [Hrd HreachS].
+      split; auto. exists r. split; auto. apply in_or_app; right. apply events_T; auto. exists init; auto.
+  - intros (Hdx & r & Hr & Hreach). apply in_app_or in Hr.
+    assert (Hrd : defined r = true) by (eapply reach_start_defined; eauto).
+    destruct (Hup r x Hdx Hr Hreach) as [Hxdisc HreachN].
+    destruct Hr as [Hr|Hr].
+    + left. split; auto. apply memb_true. apply Hused; [apply memb_true; auto|]. split; [apply memb_true; auto|].
+      exists r. split; [apply roots_T; auto|exact HreachN].
+    + right. split; auto. apply (Hcl x); [apply memb_true; auto|].
+      apply events_T in Hr; auto. destruct Hr as (init & Hi & Hri). exists init. split; auto.
+      split; [apply memb_true; auto|]. exists r. auto.
 Qed.
 End Whole.
 End Pipeline.
